@@ -32,6 +32,7 @@ MIN_REACH = {
     "reloads_checked": {"quick": 300, "thorough": 3000},
     "resows_accepted": {"quick": 15, "thorough": 60},
     "resows_refused": {"quick": 15, "thorough": 60},
+    "reloads_by_same_constructor_call": {"quick": 150, "thorough": 1200},
     "identical_resows_accepted": {"quick": 5, "thorough": 20},
 }
 TIME_BUDGET = {"quick": 300, "thorough": 3000}
@@ -250,6 +251,14 @@ def run_case(ctx, case):
             rep1 = (crop.batchsize, crop.num_batches, crop.num_sown_batches)
             crop2 = xyzpy.Crop(name="c7", parent_dir=tmp)
             rep2 = (crop2.batchsize, crop2.num_batches, crop2.num_sown_batches)
+            # ... and re-created by the very same constructor call (what re-running the sow script's first lines does)
+            if farmer is not None:
+                crop3 = xyzpy.Crop(farmer=farmer, name="c7", parent_dir=tmp, **ctor)
+            else:
+                crop3 = xyzpy.Crop(fn=fn, name="c7", parent_dir=tmp, **ctor)
+            rep3 = (crop3.batchsize, crop3.num_batches, crop3.num_sown_batches)
+            if ctor:
+                ctx.count("reloads_by_same_constructor_call")
     except Exception as e:
         err = e
     if err is not None:
@@ -306,6 +315,9 @@ def run_case(ctx, case):
             bad.append("default batching is not one setting per batch: %s" % sizes)
     if rep1[1] != B or rep1[2] != B:
         bad.append("crop reports num_batches=%r num_sown_batches=%r but %d batch files exist" % (rep1[1], rep1[2], B))
+    if rep3 != rep1:
+        bad.append("reported (batchsize, num_batches, num_sown_batches) changed when the crop was re-created by the same constructor call %r: %r -> %r" % (
+            ctor, rep1, rep3))
     if rep2 != rep1:
         bad.append("reported (batchsize, num_batches, num_sown_batches) changed on reload: %r -> %r" % (rep1, rep2))
     ctx.count("reloads_checked")
